@@ -298,6 +298,57 @@ func c05(x *mon.Ctx) {
 			add(w, "revoked-with-odd-date", tname+"/"+dn, "reject", on)
 		}
 	}
+	// ---- a CA whose certificate does not allow it to sign CRLs (keyUsage keyCertSign without cRLSign): the certificate chain is
+	//      fine, its "CRL" is not an authentic CRL (RFC 5280 6.3.3 (f)); with revocation off the quote is accepted
+	for _, which := range []string{"platform-ca", "root-ca"} {
+		ws := world.Honest(x.Rand("no-crlsign"+which), world.HonestOpts{Shape: world.QuoteShape{AuthLen: 32}})
+		if which == "platform-ca" {
+			t := world.InterTemplate(world.CNPlatform, world.Far)
+			t.KeyUsage = x509.KeyUsageCertSign
+			ws.PKI.Inter = world.Issue(t, ws.PKI.Root, ws.PKI.Inter.Key)
+		} else {
+			t := world.RootTemplate(world.Far)
+			t.KeyUsage = x509.KeyUsageCertSign
+			ws.PKI.Root = world.Issue(t, nil, ws.PKI.Root.Key)
+			ws.Roots = certs(ws.PKI.Root)
+			ws.PKI.Inter = world.Issue(world.InterTemplate(world.CNPlatform, world.Far), ws.PKI.Root, ws.PKI.Inter.Key)
+			ws.PKI.TcbSign = world.Issue(world.TcbSignTemplate(world.Far), ws.PKI.Root, ws.PKI.TcbSign.Key)
+		}
+		ws.PKI.Leaf = world.Issue(world.LeafTemplate(world.Far, world.SgxExtension(ws.P)), ws.PKI.Inter, ws.PKI.Leaf.Key)
+		ws.Q.Chain = world.ChainPEM(false, ws.PKI.Leaf, ws.PKI.Inter, ws.PKI.Root)
+		ws.Requote()
+		ws.Resign()
+		ws.MakeCRLs(nil, nil)
+		twin(ws)
+		add(ws, "crl-issuer-without-crlsign/revocation-off", which, "accept", opts[1])
+		add(ws, "crl-issuer-without-crlsign", which, "reject", on)
+	}
+	// ---- the usual renewal: the TCB signing certificate re-issued for the SAME key under a new serial. TCB Info arrives with
+	//      one edition, QE Identity with the other; revocation is per serial, not per key or name
+	{
+		ws := world.Honest(x.Rand("reissued-signer"), world.HonestOpts{Shape: world.QuoteShape{AuthLen: 32}})
+		old := ws.PKI.TcbSign
+		renewed := world.Issue(world.TcbSignTemplate(world.Far), ws.PKI.Root, old.Key) // same key, same name, new serial
+		for _, v := range []struct {
+			name        string
+			tcb, qe, rv *world.Cert
+			exp         string
+		}{
+			{"tcb-new-qe-old/old-revoked", renewed, old, old, "reject"}, {"tcb-old-qe-new/old-revoked", old, renewed, old, "reject"},
+			{"tcb-new-qe-old/new-revoked", renewed, old, renewed, "reject"}, {"both-new/old-revoked", renewed, renewed, old, "accept"},
+			{"tcb-new-qe-old/none-revoked", renewed, old, nil, "accept"},
+		} {
+			w := ws.Clone()
+			w.TcbHdr = map[string][]string{world.HdrTcbInfo: {world.IssuerChain(v.tcb, ws.PKI.Root)}}
+			w.QeHdr = map[string][]string{world.HdrQeID: {world.IssuerChain(v.qe, ws.PKI.Root)}}
+			var rev []*big.Int
+			if v.rv != nil {
+				rev = []*big.Int{big.NewInt(9), v.rv.Cert.SerialNumber}
+			}
+			w.MakeCRLs(rev, nil)
+			add(w, "signer-reissued-for-same-key", v.name, v.exp, on)
+		}
+	}
 	// ---- CA key roll-over: a second "Intel SGX PCK Platform CA" certificate with another key, genuinely issued by the trusted
 	//      root. Its CRL, served with its own (valid) issuer chain, says nothing about certificates issued under the first key.
 	{
@@ -498,6 +549,9 @@ func c05(x *mon.Ctx) {
 	x.Require("root-crl-signed-by", 0, 6, 6)
 	x.Require("pck-crl-of-rolled-over-ca-key", 0, 6, 6)
 	x.Require("revoked-with-reason-code", 0, 40, 40)
+	x.Require("crl-issuer-without-crlsign", 0, 2, 2)
+	x.Require("crl-issuer-without-crlsign/revocation-off", 2, 0, 2)
+	x.Require("signer-reissued-for-same-key", 2, 3, 5)
 	x.Require("revoked-with-odd-date", 0, 16, 16)
 	x.Require("crl-with-other-authority-key-id/revoked", 0, 4, 4)
 	x.Require("crl-with-other-authority-key-id/not-revoked", 4, 0, 4)
